@@ -423,6 +423,40 @@ def edit_doc(doc, rng):
     doc.author = "edited author"
 
 
+def reuse_after_refusal(rec, case, fmt, doc):
+    """A writer instance that has refused an invalid document still writes a valid one (as a fresh writer does)."""
+    import odml
+    from vlib import env
+    from odml.tools.odmlparser import ODMLWriter
+    bad = odml.Document()
+    s1 = odml.Section("a", "t", parent=bad)
+    s2 = s1.clone(keep_id=True)
+    s2.name = "b"
+    bad.append(s2)                      # two Sections with one id: must not be written
+    sdir = env.scratch()
+    p1, p2 = os.path.join(sdir, "reuse_refused_a.%s" % fmt.lower()), os.path.join(sdir, "reuse_refused_b.%s" % fmt.lower())
+    w = ODMLWriter(fmt)
+    try:
+        w.write_file(bad, p1)
+        return                          # judged by C07
+    except Exception:
+        pass
+    rec.monitor("instance-reuse")
+    try:
+        ODMLWriter(fmt).write_file(doc, p2)
+    except Exception:
+        return                          # the document itself is refused, by any writer
+    try:
+        w.write_file(doc, p1)
+    except Exception as exc:
+        rec.violation("%s/instance-reuse/writer-that-refused-once-refuses-a-valid-document:%s" % (fmt.lower(), type(exc).__name__),
+                      str(exc)[:200], dict(case, reuse=fmt))
+        return
+    with open(p1, "rb") as f1, open(p2, "rb") as f2:
+        if f1.read() != f2.read():
+            rec.violation("%s/instance-reuse/file-differs-from-a-fresh-writers" % fmt.lower(), "", dict(case, reuse=fmt))
+
+
 def run_reuse(case, ctx, fmts, strip):
     """One writer (and one reader) instance used twice: the second result must describe the edited document."""
     import random
@@ -439,6 +473,7 @@ def run_reuse(case, ctx, fmts, strip):
             rec.monitor("instance-reuse")
             rec.evaluation()
             rng = random.Random("reuse|%s|%s" % (case.get("i"), fmt))
+            reuse_after_refusal(rec, case, fmt, doc)
             try:
                 w = ODMLWriter(fmt)
                 r = ODMLReader(fmt, show_warnings=False)
